@@ -940,7 +940,7 @@ def unique_rules(model, R):
         env = Env(func)
         comps = [n for n in walk(func.body) if isinstance(n, ast.ListComp)]
         if len(comps) != 1:
-            if not comps and _unique_loop_form(R, func, name):
+            if not comps and _unique_loop_form(R, func, name, model):
                 continue
             raise Unrecognised(f'Unique.{name}: expected one list comprehension', func=func, node=func.node)
         lc = comps[0]
@@ -1036,7 +1036,7 @@ def unique_rules(model, R):
         R.check(ok, 'UNIQUE-INVARIANT', func, func.node, '__iter__ is the ordered list', 'iter(self._items)')
 
 
-def _unique_loop_form(R, func, name):
+def _unique_loop_form(R, func, name, model=None):
     """Explicit-loop spelling of the dedup: ``for x in it: if x not in seen [..]: seen.add(x); items.append(x)`` (also with guard-``continue``).
     Returns True when the shape was recognised (and the obligations recorded)."""
     from ..astutil import context_of
